@@ -191,3 +191,40 @@ def make_M(rows, lt):
                     out[i] = resolve(nv.expr().replace("&", ""))
         return tuple(out)
     return M
+
+
+# --------------------------------------------------------------------------
+# Open findings are identified by the input classes that fail today (known_findings.json, field `instances`).
+
+def sgn(a, b):
+    return "<" if a < b else (">" if a > b else "=")
+
+
+def access_pair_class(ax, ay):
+    """(conditions, level) x (conditions, level) -> which sides carry conditions, order of conditions, order of levels"""
+    (cx, lx), (cy, ly) = ax, ay
+    shape = ("N" if cx is None else "S") + ("N" if cy is None else "S")
+    return "%s/cond%s/level%s" % (shape, sgn(cx, cy) if shape == "SS" else "-", sgn(lx, ly))
+
+
+def shape_class(*accesses):
+    return "".join("N" if a[0] is None else "S" for a in accesses)
+
+
+def report_new_classes(ctx, prop, rule, key, failing, site, what):
+    """`key` is the key of the (possibly recorded) coarse obligation; every failing class that the recorded
+    finding does not list is reported under its own key, so the known finding cannot hide a different violation."""
+    import core
+    listed = set()
+    for k in core.load_known():
+        if k["property"] == prop and k["key"] == key and k.get("status") == "open":
+            listed = set(k.get("instances") or [])
+    for cls in sorted(set(failing) - listed):
+        ctx.ob(rule, "%s:class %s" % (key.split(":", 1)[1], cls), False,
+               "%s for the input class %s, which is not among the classes of the recorded finding %s (class = which "
+               "values carry conditions N/S, order of the conditions, order of the levels)" % (what, cls, sorted(listed)),
+               site=site, key="%s:class:%s" % (key, cls))
+    ctx.ob(rule, "%s:no new failing input class" % key.split(":", 1)[1], not (set(failing) - listed),
+           "failing classes today %s, recorded %s" % (sorted(failing), sorted(listed)), site=site,
+           key="%s:classes" % key, trivial=True)
+    ctx.extra.setdefault("failing_classes", {})[key] = sorted(failing)
